@@ -17,7 +17,7 @@ PROPS["C06"] = dict(
           "fmatch (exe): csg_fmatch on synthetic force fields inside the natural-cubic-spline space (5-25 knots): non-bonded pairs, bonds, angles, "
           "dihedrals of small molecules in an orthorhombic box, reference forces analytic in numpy written as DL_POLY HISTORY (.dlph), 1-4 frames, "
           "frames_per_block in {1,2,all}, constrainedLS true/false; written *.force tables vs generating function on the output grid; "
-          "cases where numpy's own least-squares solution of the same design misses f are discarded; non-trivial = >= 1 bonded interaction."),
+          "cases where numpy's own least-squares solution of the same design misses f are discarded; non-trivial = >= 1 bonded interaction. imc_solve matrices also come in units of 1e-7, 1e-6 and 1e3 (same solution; eigenvalue + r below 4e-12 is the documented pseudo-inverse domain and not asserted)."),
     assumptions=COMMON_ASSUME + [
         "force tables use the sign convention F_i = +f(q) grad_i q with f = -dU/dq (for pairs F_i = -f(r) e_ij), the one csg_fmatch documents for *.force",
         "regularisation r > 0 such that A^T A + rI has condition <= 1e9 (well-posed)",
